@@ -109,6 +109,12 @@ CHECKS["C07"] = dict(
    note="Trusted: multiplicative unit model, Gaussian scaling lemma for the stated consequences, kernel/file stubs as in C01/C02; astropy's conversion tables outside.",
    technique="symbolic execution with symbolic unit scales + z3 (small NRA with named reciprocals); twin problems in two unit systems replayed on the real build",
    ref="3/C07")
+CHECKS["C04"] = dict(
+   text="The real get_orbit / orbits / ln_unmarginalized_likelihood / ln_normal run on symbolic sample rows and data with twobody shimmed by its documented formulas (same uninterpreted RV symbol as the kernel's Kepler contract): z3 proves the reconstructed orbit's (P,e,omega,M0,t0) are the row's and the samples' t_ref, "
+        "its effective amplitude is the row's K (a*2pi = P K sqrt(1-e^2)), trend coefficient v_k multiplies (t-t_ref)^k - i.e. the curve equals K*RV + sum v_k*(kernel design column k) for the real get_trend_design_matrix - and that ln_unmarginalized_likelihood is the Normal log-density with variance sigma^2+s^2 in the data unit. With C01, C03 and Gaussian conjugacy (trusted) this is the Bayes identity.",
+   note="Trusted: twobody formulas as shimmed, Gaussian conjugacy lemma, SQRT/LOG uninterpreted with sqrt(x)^2=x; n_offsets>0 only up to X1-X3; <=2 epochs, <=2 rows, poly_trend<=3.",
+   technique="symbolic execution of the real Python source + z3 (UF congruence, small NRA); replay against real twobody orbits",
+   ref="3/C04")
 NOT_YET = {}
 ALL = ["C%02d" % i for i in range(1, 20)]
 
